@@ -10,6 +10,8 @@ def run(ctx, rep):
                 "recomputed from X, y and the iterate logged at that time (intercept unpenalised)")
     run_parallel(ctx, rep, oracles=["history", "stop_value"])
     run_bbox(ctx, rep, oracles=["history", "history_len", "stop_value"])
+    from . import est_common
+    est_common.run_n_iter(ctx, rep)
 
 
 def replay(ctx, payload):
